@@ -26,12 +26,13 @@ ASSUMPTIONS = c01.ASSUMPTIONS
 BUDGET = {"quick": {"examples": 12000, "wall": 150}, "thorough": {"examples": 400000, "wall": 5400}}
 FLOORS = {"nontrivial": 0.2, "mode:cap": 0.2, "mode:ns": 0.15, "differential-compared": 0.1, "cap-bites": 0.1}
 KNOWN = ("C01-NONLIT", "C01-NONLIT-KLS", "C02-MIXEDKIND", "C02-GONEREF")
-NS_CHOICES = ["http://ex.org/", "http://ex.org/ns/", "http://other.org/v#", RDF, "http://ex.org/n", "http://nowhere.org/"]
+NS_CHOICES = ["http://ex.org/", "http://ex.org/ns/", "http://other.org/v#", RDF, "http://ex.org/n", "http://nowhere.org/",
+              "http://ex.org/voc#", "http://ex.org/ns/voc#"]
 
 
 @st.composite
 def cases(draw):
-    g = draw(gg.general(inst_props=(RDF_TYPE, RDF_TYPE, RDF_TYPE, "http://ex.org/isA"), iri_like_literals=draw(st.integers(0, 3)) == 0))
+    g = draw(gg.general(inst_props=(RDF_TYPE, RDF_TYPE, RDF_TYPE, "http://ex.org/isA"), iri_like_literals=draw(st.integers(0, 3)) == 0, hash_props=draw(st.booleans())))
     cfg = draw(gg.switches())
     cfg["instances_report_mode"] = "mixed"
     target = draw(common.target_spec(g))
